@@ -84,6 +84,10 @@ type caseT struct {
 	InFlight    *purgex.Op   `json:"in_flight,omitempty"` // upload started between the kill and the resume (all blobs written), committed after the resume
 	Post        []purgex.Op  `json:"post"`
 	Faults      []faultT     `json:"faults,omitempty"`
+	// PostTouchFault: the n-th Touch of the uploaders' blob store fails once while the operations between index
+	// and delete-unused run (an upload re-using a blob refreshes its update time with Touch). The upload may
+	// fail - then it is no bundle - but a bundle it reports as uploaded must survive delete-unused
+	PostTouchFault int `json:"post_touch_fault,omitempty"`
 }
 
 var indexFaultMenu = []faultT{
@@ -167,6 +171,9 @@ func drawCase(t *rapid.T) caseT {
 		c.Inline = &inlineT{At: rapid.IntRange(2, 30).Draw(t, "inline_at"), Op: purgex.DrawUpload(t, c.Shape)}
 	}
 	c.Post = purgex.DrawOps(t, c.Shape, 0, 3, 1, "npost")
+	if len(c.Post) > 0 && rapid.IntRange(0, 3).Draw(t, "post_touch_fault") == 0 {
+		c.PostTouchFault = rapid.IntRange(1, 4).Draw(t, "post_touch_nth")
+	}
 	if dm := mix(rapid.Uint64().Draw(t, "delmode")) % 5; dm <= 1 {
 		c.Faults = append(c.Faults, drawFault(t, "delete"))
 		if dm == 0 && rapid.Bool().Draw(t, "two_delete_faults") {
@@ -465,9 +472,37 @@ func runCase(c caseT, out *outcomeT) error {
 
 	// ------------------------------------------------------------------ life goes on
 	time.Sleep(time.Millisecond)
+	var touchFaults []*memstore.Fault
+	if c.PostTouchFault > 0 {
+		for _, u := range w.Users {
+			mf := &memstore.Fault{Op: memstore.OpTouch, Nth: c.PostTouchFault, Times: 1}
+			u.Blob.AddFault(mf)
+			touchFaults = append(touchFaults, mf)
+		}
+	}
+	touchHits := func() int {
+		n := 0
+		for _, mf := range touchFaults {
+			n += mf.Hits
+		}
+		return n
+	}
 	for _, o := range c.Post {
+		before := touchHits()
 		if err := w.applyGuarded(o, "post", out); err != nil {
+			if o.Kind == purgex.OpUpload && touchHits() > before {
+				stats.Count("post_upload_refused_on_touch_failure", 1)
+				continue // refused: not a bundle
+			}
 			return err
+		}
+	}
+	if c.PostTouchFault > 0 {
+		for _, u := range w.Users {
+			u.Blob.ClearFaults()
+		}
+		if touchHits() > 0 {
+			out.faultHits["post:Touch/"] += touchHits()
 		}
 	}
 	if err := w.CheckModel(); err != nil {
